@@ -99,6 +99,21 @@ func CheckErrPropagatedOpt(fn *ssa.Function, call ssa.CallInstruction, eofHandle
 	}
 	startBlock := call.Block()
 	seenProblem := map[string]bool{}
+	clobbers := ClobberingDefers(fn, errIdx)
+	// deferActive: a clobbering defer has been registered when ret executes on this path
+	deferActive := func(path []*ssa.BasicBlock, ret *ssa.Return) *ssa.Defer {
+		for _, d := range clobbers {
+			if d.Block() == ret.Block() || d.Block().Dominates(ret.Block()) {
+				return d
+			}
+			for _, pb := range path {
+				if pb == d.Block() {
+					return d
+				}
+			}
+		}
+		return nil
+	}
 	complete = EnumPathsFrom(startBlock, 2, 60000, func(path []*ssa.BasicBlock) {
 		aliases := map[ssa.Value]bool{e: true}
 		state := "untested"
@@ -161,6 +176,13 @@ func CheckErrPropagatedOpt(fn *ssa.Function, call ssa.CallInstruction, eofHandle
 					}
 					slot := ResolvedResults(x)[errIdx]
 					if aliases[slot] {
+						if d := deferActive(path, x); d != nil {
+							k := fmt.Sprint(d.Pos(), "clobber")
+							if !seenProblem[k] {
+								seenProblem[k] = true
+								problems = append(problems, PropProblem{d.Pos(), "the error is placed in the named result, but the deferred call registered here overwrites that result unconditionally (not only when it is nil, not with a value built from it): the caller sees the deferred call's outcome instead"})
+							}
+						}
 						return
 					}
 					if state == "untested" && lastOnSameCall && isOpaqueFailure(slot) {
@@ -299,4 +321,133 @@ func sameCallTestExcludesError(cv *ssa.Call, bo *ssa.BinOp, taken bool) bool {
 		}
 	}
 	return true
+}
+
+// ClobberingDefers returns the deferred calls of fn that can replace a non-nil error already placed in fn's named error
+// result (index idx) by something unrelated: a deferred closure (or a deferred call handed the address of the result) that
+// stores to the result cell, unless the store (a) happens only when the result is currently nil (`if err == nil { err = … }`),
+// (b) stores a value built from the current result (wrapping, errors.Join, the result itself), or (c) happens only after a
+// recover() that returned non-nil (the function was panicking, no error had been returned).
+func ClobberingDefers(fn *ssa.Function, idx int) []*ssa.Defer {
+	if idx < 0 {
+		return nil
+	}
+	var cell *ssa.Alloc
+	for _, ret := range Returns(fn) {
+		if idx >= len(ret.Results) {
+			continue
+		}
+		if u, ok := ret.Results[idx].(*ssa.UnOp); ok && u.Op == token.MUL {
+			if a, ok := u.X.(*ssa.Alloc); ok {
+				cell = a
+			}
+		}
+	}
+	if cell == nil {
+		return nil
+	}
+	var out []*ssa.Defer
+	for _, b := range fn.Blocks {
+		for _, ins := range b.Instrs {
+			d, ok := ins.(*ssa.Defer)
+			if !ok {
+				continue
+			}
+			var body *ssa.Function
+			var addr ssa.Value
+			if mc, ok := d.Call.Value.(*ssa.MakeClosure); ok {
+				body, _ = mc.Fn.(*ssa.Function)
+				for k, bv := range mc.Bindings {
+					if bv == ssa.Value(cell) && body != nil && k < len(body.FreeVars) {
+						addr = body.FreeVars[k]
+					}
+				}
+			} else if sc := d.Call.StaticCallee(); sc != nil {
+				body = sc
+				for k, a := range d.Call.Args {
+					if a == ssa.Value(cell) && k < len(sc.Params) {
+						addr = sc.Params[k]
+					}
+				}
+			}
+			if body == nil || addr == nil || len(body.Blocks) == 0 {
+				continue
+			}
+			if storeClobbers(body, addr) {
+				out = append(out, d)
+			}
+		}
+	}
+	return out
+}
+
+func storeClobbers(body *ssa.Function, addr ssa.Value) bool {
+	isCur := func(v ssa.Value) bool {
+		u, ok := v.(*ssa.UnOp)
+		return ok && u.Op == token.MUL && u.X == addr
+	}
+	var derives func(v ssa.Value, d int) bool
+	derives = func(v ssa.Value, d int) bool {
+		if d > 4 {
+			return false
+		}
+		if isCur(v) {
+			return true
+		}
+		switch x := v.(type) {
+		case *ssa.Call:
+			for _, a := range x.Call.Args {
+				if derives(a, d+1) {
+					return true
+				}
+				for _, va := range VariadicArgs(a) {
+					if derives(va, d+1) {
+						return true
+					}
+				}
+			}
+		case *ssa.MakeInterface:
+			return derives(x.X, d+1)
+		case *ssa.ChangeInterface:
+			return derives(x.X, d+1)
+		case *ssa.Phi:
+			for _, e := range x.Edges {
+				if !derives(e, d+1) {
+					return false
+				}
+			}
+			return len(x.Edges) > 0
+		}
+		return false
+	}
+	for _, b := range body.Blocks {
+		for _, ins := range b.Instrs {
+			st, ok := ins.(*ssa.Store)
+			if !ok || st.Addr != addr {
+				continue
+			}
+			if derives(st.Val, 0) {
+				continue
+			}
+			guarded := GuardedBy(b, func(cond ssa.Value) (bool, bool) {
+				x, trueMeansNil, ok := NilCmp(cond)
+				if !ok {
+					return false, false
+				}
+				if isCur(x) {
+					return trueMeansNil, true // store only when the result is nil
+				}
+				if c, ok := x.(*ssa.Call); ok {
+					if bi, ok := c.Call.Value.(*ssa.Builtin); ok && bi.Name() == "recover" {
+						return !trueMeansNil, true // store only while panicking
+					}
+				}
+				return false, false
+			})
+			if !guarded {
+				return true
+			}
+		}
+	}
+	return false
 }
